@@ -1,6 +1,7 @@
 package ast
 
 func (cw *CodeWriter) WriteLeadingComments(comments []string) {
+	defer cw.vtraceList("WriteLeadingComments", comments)()
 	if !cw.PrettyPrint || len(comments) == 0 {
 		return
 	}
